@@ -55,6 +55,21 @@ def staged_run(ctx, fn, units, deadline, slice_size=None):
     return out, True, k
 
 
+def time_scale():
+    """VERIF_TIME_SCALE=<float> stretches the wall-clock caps of the batch checks (for a heavily loaded machine;
+    default 1: quick stages stop being dispatched after ~100 s, thorough after ~13 min)."""
+    try:
+        return max(0.1, float(os.environ.get('VERIF_TIME_SCALE', '1') or 1))
+    except ValueError:
+        return 1.0
+
+
+def stage_deadline(ctx):
+    """Wall-clock point (seconds since the start of the check) after which no further work is dispatched:
+    105 s (quick) / 800 s (thorough) from the start, but never less than 40 s after the set-up phase."""
+    return max((105 if ctx.quick else 800) * time_scale(), ctx.elapsed() + 40)
+
+
 def attr_key(case):
     """Attributes of a case that may carry a root cause (everything except the call DAG, the targets of
     config entries and the discovery order)."""
@@ -83,19 +98,62 @@ def bucket_and_shrink(ctx, failures, shrink_fn):
     cores = ctx.pmap(shrink_fn, reps, chunksize=1) if reps else []
     out_first, out_rest = {}, []
     for ((fc, ak), lst), (core, core_fc, core_det) in zip(sorted(buckets.items()), cores):
-        sig = f'{core_fc} || {bg.case_key(core)}'
-        if sig not in out_first:
+        sig = signature_of(core_fc, core)
+        if sig not in out_first or bg.case_size(core) < bg.case_size(out_first[sig][1]):
             out_first[sig] = (sig, core, core_det)
         for case, det in lst:
             out_rest.append((sig, case, det))
     return list(out_first.values()) + out_rest, len(buckets)
 
 
+def family(failclass):
+    """Failure class without the parts that vary between consequences of one root cause."""
+    import re
+    return re.sub(r' via=\S*', '', failclass).strip()
+
+
+def core_attrs(core):
+    """The attributes a minimal failing case still needs: layout (unless free-standing files), import style
+    (unless ONLY), feature kinds, configuration switches with their entry form (targets and default/routine level dropped), whether a
+    non-sorted discovery order is needed, case-deviation kinds, extra options."""
+    cn = bg.norm_case(core)
+    p = cn['p']
+    a = []
+    if p['layout'] != 'free':
+        a.append(f'layout={p["layout"]}')
+    if p['imp'] != 'only':
+        a.append(f'import={p["imp"]}')
+    for f in sorted({f[0] + (str(f[1]) if f[0] == 'usespell' else '') for f in p['features']}):
+        a.append(f'feature={f}')
+    for s, v in cn['c']:
+        form = v[-1] if isinstance(v, list) and v and isinstance(v[-1], str) and v[-1] in bg.FORM_WEIGHT else ''
+        a.append(f'config={s.split("@")[0]}' + (f':{form}' if form and form != 'plain' else ''))
+    if cn['o'] is not None and cn['o'] != sorted(cn['o']):
+        a.append('discovery-order=not-sorted')
+    for c in sorted({c[0][0] + ':' + c[1].split('@')[0] for c in p['casing']}):
+        a.append(f'case={c}')
+    for k, v in sorted((core.get('opt') or {}).items()):
+        if v and k != 'pipeline':
+            a.append(f'option={k}')
+        elif k == 'pipeline' and v != 'write':
+            a.append(f'pipeline={v}')
+    return sorted(set(a))
+
+
+def signature_of(core_failclass, core):
+    return f'{family(core_failclass)} | ' + ' '.join(core_attrs(core))
+
+
 def greedy_shrink(failclass, case, fails_as, budget=150):
-    """Signature-preserving greedy reduction of one case."""
+    """Greedy reduction of one failing case to a minimal failing case ("cause-minimal": a step is accepted if the
+    smaller case still violates the property, whatever the symptom).  The signature is then computed from the
+    core alone (its own symptom + the attributes it still needs), so the same cause reached through a bigger input,
+    another tier, another seed or a capped run gets the same signature.  Price: a case that contains the trigger
+    of a listed finding *and* a second defect slides to the listed one; the second defect has to show in a case
+    without that trigger (the finding-free part of the space is judged without any suppression)."""
     def still(c):
         try:
-            return fails_as(c) == failclass
+            return fails_as(c) is not None
         except Exception:      # a candidate the harness cannot even set up is not a smaller witness
             return False
     return shrink(bg.norm_case(case), still, bg.smaller_cases, budget=budget)
